@@ -279,6 +279,17 @@ func (s *Sim) exec(e schedEvent) {
 			first = len(h.segs[0])
 		}
 		h.mu.Unlock()
+		rem := h.remainingBeforeCut()
+		if rem == 0 {
+			s.wireCut(h)
+			return
+		}
+		if rem > 0 && infl > rem {
+			infl = rem
+			if first > rem {
+				first = rem
+			}
+		}
 		if infl > 0 {
 			switch s.prog.Cfg.Frag {
 			case 1:
@@ -293,8 +304,51 @@ func (s *Sim) exec(e schedEvent) {
 				}
 			}
 		}
+		if rem > 0 && (n < 0 || n > rem) {
+			n = rem
+		}
 		d := h.deliver(n)
 		s.tracef("deliver %s %s", h.name, d)
+		if h.remainingBeforeCut() == 0 {
+			s.wireCut(h)
+		}
+	}
+}
+
+// wireCut breaks the connection h belongs to, at the planned byte offset.
+func (s *Sim) wireCut(h *halfConn) {
+	h.mu.Lock()
+	h.limitHit = true
+	reset := h.limitReset
+	h.mu.Unlock()
+	var pair *connPair
+	s.mu.Lock()
+	for _, p := range s.conns {
+		if p.c2s == h || p.s2c == h {
+			pair = p
+		}
+	}
+	s.seq++
+	cs := s.seq
+	for _, r := range s.rpcs {
+		if r.r.Transport == THTTP && r.cutSeq == 0 {
+			r.cutSeq = cs
+		}
+	}
+	s.mu.Unlock()
+	kind := "wirecut-clean"
+	if reset {
+		kind = "wirecut-reset"
+	}
+	s.fired(kind)
+	s.tracef("FAULT %s %s after %d bytes", kind, h.name, h.delivered)
+	h.cut(0, reset)
+	if pair != nil {
+		other := pair.c2s
+		if other == h {
+			other = pair.s2c
+		}
+		other.cut(0, reset)
 	}
 }
 
